@@ -45,16 +45,15 @@ PROPS["C11"] = {
 }
 
 PROPS["C01"] = {
-    "imports": VIEW_IMPORTS + " Proofs.C11_Statements Proofs.C01_Statements",
+    "imports": VIEW_IMPORTS + " Proofs.C11_Statements Proofs.C01_Statements Proofs.RoundTrip",
     "prelude": "Definition cfg := Cfg{TAG}.cfg.",
-    "level_text": "TODO",
-    "level_note": "TODO",
+    "level_text": "Theorem (K3) for every configuration and every code object satisfying the boolean rt_wf_deep/rt_extra_deep, at any nesting depth: decoding then encoding gives back the identical code object record (counts, flags, code bytes, constants recursively, names, variable tables, filename, name, first line, raw line table). Composed from: EXTENDED_ARG folding inverse, replay of the four operand tables (duplicates allowed), one-round jump relaxation on decoded sizes, lossless split/join of the line mapping, line-table codec inverse laws (C10), flags and args round trips. The premises are evaluated on every corpus object in the run (wf-monitor); full to_code_data / from_code_data outputs of model and code are compared (decode, encode groups); the oracle compares attribute by attribute on real interpreters",
+    "level_note": "types.CodeType's own normalisation (CO_NOFREE re-derivation, argument checks) is modelled by pycode_new and exercised by the correspondence; 'CPython-compiled code satisfies rt_wf_deep' is a monitored assumption, not a theorem (non-minimal operand widths on non-jumps, line entries inside an instruction, jump targets off instruction starts are outside it)",
     "trusted_base": COMMON_TB,
     "assumptions": [],
     "rule": "corpus of real code objects (repository examples, inline programs, a deterministic stdlib subset; thorough: whole stdlib) and generated programs "
             "x compile mode x optimisation level, every nested code object; distinct = distinct (co_code, name, firstlineno, line table)",
     "replay_hint": "compile the named file / program under the named interpreter and compare CodeData.from_code(c).to_code() with c attribute by attribute",
-    "claimed": False,
 }
 
 PROPS["C04"] = {
@@ -101,29 +100,26 @@ PROPS["C02"] = {
 PROPS["C07"] = {
     "imports": JSON_IMPORTS,
     "prelude": "Definition cfg := Cfg{TAG}.cfg.",
-    "level_text": "TODO", "level_note": "TODO",
+    "level_text": "Theorems over all values at any nesting of code constants and every constant kind: loading the JSON form gives equal data (identical when NaN-free), integers beyond 2^53 travel as decimal strings and come back exactly, the form contains no NaN/Infinity number and no integer beyond 2^53; the model's to_json / from_json are compared with the code on every corpus value (with the text codecs canonicalised); schema validity, the real dumps/loads cycle (json, orjson when present) and identical to_code() are decided by the oracle with an independent validator", "level_note": "schema validity is NOT a Coq theorem (no validator model was built): it is decided by harness/props/jsontools.py against code_data.JSON_SCHEMA on every document; repr/literal_eval, base64 and the JSON text layer are identity stand-ins in the model",
     "trusted_base": COMMON_TB + ["text layer of json/orjson, repr/ast.literal_eval and base64 are outside the model (identity stand-ins, canonicalised by the harness; their round trip is exercised by the oracle)"],
     "assumptions": ["repr/literal_eval and base64 round-trip", "json.dumps/json.loads preserve the type and value of ints, finite floats, strings, lists, dicts"],
     "rule": "every constant kind x every position (operand, default, tuple member, frozenset member, dead-code additional arg, docstring, class docstring), lone surrogates in every string position, "
             "corpus and generated programs, decoded and normalized; distinct = distinct (origin, hash of data)",
     "replay_hint": "compile the described source; d = CodeData.from_code(c); CodeData.from_json_data(json.loads(json.dumps(d.to_json_data(), allow_nan=False)))",
-    "claimed": False,
 }
 PROPS["C14"] = {
     "imports": VIEW_IMPORTS, "prelude": "Definition cfg := Cfg{TAG}.cfg.",
-    "level_text": "TODO", "level_note": "TODO", "trusted_base": COMMON_TB, "assumptions": [],
+    "level_text": "Theorems: iterating decoded data yields exactly the code entries of the original constants table (each once, in table order, referenced or not); all_code_data yields the object followed by one object per code object reachable through the constants at any depth, each equal to decoding that code object on its own (nested induction, fuel = nesting depth suffices). Model and code compared on the yielded (name, firstlineno, size) sequences; oracle: multiset comparison with a recursive walk of co_consts", "level_note": "premise rt_wf_deep as in C01 (monitored); module_codes.py is not modelled", "trusted_base": COMMON_TB, "assumptions": [],
     "rule": "programs with nested code left unreferenced by dead-code elimination, duplicated finally bodies, equal sibling lambdas; every corpus code object with nested code; generated programs; "
             "distinct = distinct (co_code, name, number of nested code objects)",
     "replay_hint": "compile the named source; compare list(CodeData.from_code(c).all_code_data()) with a recursive walk of c.co_consts",
-    "claimed": False,
 }
 PROPS["C09"] = {
     "imports": VIEW_IMPORTS, "prelude": "Definition cfg := Cfg{TAG}.cfg.",
-    "level_text": "TODO", "level_note": "TODO", "trusted_base": COMMON_TB + ["dis.get_instructions as independent reader of first-use ranks"], "assumptions": [],
+    "level_text": "Theorems for any table, any key equivalence, duplicates allowed: decoding a code object runs exactly the table decoder on the operand indices (C09_decoded_tables); in a duplicate-free table an entry carries an override iff its position differs from its first-use rank; additional args are exactly the unreferenced entries in order; tables in first-use order without unreferenced entries decode with no override; every override is needed (stripping it from all uses makes re-encoding fail or return other indices). The override / additional-arg projection of model and code is compared; the oracle recomputes first-use ranks from dis and re-encodes with each suspicious override stripped", "level_note": "the theorems about overrides quantify over the table-level decoder/encoder; their link to decoded code objects is C09_decoded_tables (parameters preset, docstring first)", "trusted_base": COMMON_TB + ["dis.get_instructions as independent reader of first-use ranks"], "assumptions": [],
     "rule": "every corpus / generated code object and its canonical re-encoding (normalize().to_code()); every override on an in-place entry is tested by stripping it from all uses and re-encoding; "
             "distinct = distinct (co_code, tables, canonical flag)",
     "replay_hint": "compile the named source; inspect _index_override / _additional_args of CodeData.from_code(c)",
-    "claimed": False,
 }
 PROPS["C05"] = {
     "imports": VIEW_IMPORTS, "prelude": "Definition cfg := Cfg{TAG}.cfg.",
@@ -162,15 +158,14 @@ PROPS["C12"] = {
 
 PROPS["C06"] = {
     "imports": JSON_IMPORTS + " Spec.Lnotab Spec.Dis Model.ViewSer Proofs.C02_Statements Proofs.C06_Statements", "prelude": "Definition cfg := Cfg{TAG}.cfg.",
-    "level_text": "TODO", "level_note": "TODO", "trusted_base": COMMON_TB, "assumptions": [],
+    "level_text": "Theorems: normalize is idempotent and respects equality; every history over {JSON round trip, normalize} of any length leaves the normal form unchanged (induction over the history); canonicity: the normalized blocks of decoded data are a function of CPython's reading (dis view) of the code alone, so code objects with equal views and equal kept header fields normalize to EQUAL data whatever their table order, unreferenced entries, redundant EXTENDED_ARG prefixes or CO_NESTED. Stability under the code round trip of NORMALIZED data and the concrete mutators (permutation, padding, prefixes) are decided by the history / variant oracle and by comparing the model's normal forms of both variants", "level_note": "the clause 'stable under to_code/from_code after normalize' needs encoder correctness (C03 K2) and is not yet a theorem: it is covered by the history oracle; that the mutators preserve the dis view is checked per variant by the model (variants group), not proved", "trusted_base": COMMON_TB, "assumptions": [],
     "rule": "histories of 1-8 (thorough 1-20) operations over {code round trip, JSON round trip, normalize} on corpus / generated objects; variants built by independent mutators "
             "(table permutation with operand renumbering, padding with unreferenced entries, CO_NESTED toggle, redundant EXTENDED_ARG 0 prefix with jump re-targeting and rebuilt line table); distinct = distinct (object, history or variant)",
     "replay_hint": "compile the named source; apply data.history / data.variant (harness/props/mutators.py) and compare normalize() results",
-    "claimed": False,
 }
 
 PROPS["C03"] = {
-    "imports": VIEW_IMPORTS, "prelude": "Definition cfg := Cfg{TAG}.cfg.",
+    "imports": VIEW_IMPORTS + " Proofs.C01_Statements Proofs.C03_Statements Proofs.C03b_Statements", "prelude": "Definition cfg := Cfg{TAG}.cfg.",
     "level_text": "TODO", "level_note": "TODO", "trusted_base": COMMON_TB + ["dis / co_lines / PyCode_Addr2Line of the running interpreter as readers of the emitted code"],
     "assumptions": ["line_number is not None on <= 3.9 (the co_lnotab format cannot express 'no line'; to_code raises TypeError there)"],
     "rule": "hand-built block graphs without override fields: 1-7 blocks of 1-260 instructions, absolute jumps in both directions, forward relative jumps, name tables of 3-300 (thorough 70000) entries, "
@@ -181,22 +176,20 @@ PROPS["C03"] = {
 }
 
 PROPS["C15"] = {
-    "imports": JSON_IMPORTS, "prelude": "Definition cfg := Cfg{TAG}.cfg.",
+    "imports": JSON_IMPORTS + " Proofs.C15_Statements", "prelude": "Definition cfg := Cfg{TAG}.cfg.",
     "phases": ["produce", "consume"], "consumer_phases": ["consume"],
-    "level_text": "TODO", "level_note": "TODO", "trusted_base": COMMON_TB, "assumptions": [],
+    "level_text": "Theorems: a document written by to_json_data loads into data that re-serializes to the identical document, and normalize commutes with the cycle; the model's JSON functions and normalize take no interpreter configuration at all. The substance is the run: the single version-free model is compared with from_json_data / normalize / to_json_data on every available interpreter 3.7-3.13 for documents written under each of 3.7-3.10, and the oracle compares canonical dumps of producer and consumer", "level_note": "that the library's JSON code paths do not depend on sys.version_info is not proved from the source; it is what the cross-interpreter correspondence with one model checks (generator-bounded)", "trusted_base": COMMON_TB, "assumptions": [],
     "rule": "documents (decoded and normalized) written under each of 3.7-3.10 for corpus / generated code objects, loaded, normalized and re-dumped under every available interpreter 3.7-3.13; "
             "distinct = distinct (document, producer, consumer)",
     "replay_hint": "write CodeData.from_code(c).to_json_data() under data.producer, load it with CodeData.from_json_data under data.consumer, compare to_json_data() / normalize()",
-    "claimed": False,
 }
 
 PROPS["C16"] = {
     "imports": "Model.Cli", "prelude": "",
-    "level_text": "TODO", "level_note": "TODO", "trusted_base": COMMON_TB + ["argparse, dis.dis text output, compile(): outside the model"], "assumptions": [],
+    "level_text": "Theorem: the command accepts exactly one program source, counted by presence (all four-tuples of given/not given); the printed value is normalize(decode) or decode. These are thin: most of the assurance for C16 comes from the differential run - subprocess output of every source option x output flag combination parsed (repr evaluated, JSON section loaded, --dis vs --dis-after instruction lists compared) against the in-process API on each interpreter; the accept/reject decision of model and code is compared", "level_note": "argparse, dis.dis text output, Rich rendering (absent here: plain print fallback) are outside the model", "trusted_base": COMMON_TB + ["argparse, dis.dis text output, compile(): outside the model"], "assumptions": [],
     "rule": "all 2^4 subsets of the four source options (with empty-string values) for the usage rule; programs x source kinds {file, -c, -e, -m} x subsets of the five output flags (quick: a seeded sample of 40, thorough: all); "
             "distinct = distinct argument vectors",
     "replay_hint": "python -c 'from code_data._cli import main; main()' <data.args> in a directory holding the program file",
-    "claimed": False,
 }
 
 NOT_CLAIMED = {}
